@@ -133,6 +133,13 @@ def run(tier):
         if any(f.startswith("atomic") for f in fails):
             observed_nonatomic.add((sc["profile"], sc["fault"]))
         ck.disagree(rec, r)
+    # vacuity per option value: every set-up of every profile must complete at least once without fault
+    okset = set((r["scen"]["profile"], r["scen"]["variant"]) for r in recs
+                if "crash" not in r and not r["second"] and r["scen"]["fault"] == "none" and r["ret"] == "ok")
+    for sc in scen:
+        if sc["fault"] == "none" and (sc["profile"], sc["variant"]) not in okset:
+            binding_problems.append("vacuous: set-up %s of profile %s never completed successfully" % (sc["variant"], sc["profile"]))
+    ck.cov["option_values_executed"] = len(okset)
     if binding_problems and not ck.violations:
         raise Broken("\n".join(binding_problems[:5]))
     if not only and not ck.violations:
